@@ -21,8 +21,9 @@ OWN = {
     "C07": ("c_",),
     "C09": ("a_",),
     "C10": ("b_", "bd_lost"),
-    "C11": ("d_filter", "bd_lost", "c_junk"),
-    "C12": ("e_",),
+    "C11": ("d_filter", "bd_lost", "c_junk", "t_filter"),
+    "C12": ("e_", "t_"),
+    "C16": ("s_",),
 }
 
 
